@@ -192,6 +192,35 @@ def option_provenance(ctx, rule='A6'):
            'an existence mapping without the None entry is rejected', '')
 
 
+def existence_universe(ctx, rule='A6u'):
+    """Both mapping kinds decide "the source node exists" against *all* nodes of the source architecture."""
+    for key in (f'{SUP}:SupSelChoiceOptionMapping.resolve', f'{SUP}:SupExistenceMapping.resolve'):
+        fn = ctx.fn(key)
+        src = fn.params[3]
+        tests = [c for c in ast.walk(fn.node) if isinstance(c, ast.Compare) and len(c.ops) == 1 and
+                 isinstance(c.ops[0], (ast.In, ast.NotIn)) and 'str_context()' in norm(c.left) and
+                 isinstance(c.comparators[0], ast.Name)]
+        if not tests:
+            raise AnalysisError(f'{key}: existence test not found')
+        setname = tests[0].comparators[0].id
+        defs = [a for a in walk_fn(fn) if isinstance(a, ast.Assign) and norm(a.targets[0]) == setname]
+        ok = False
+        detail = 'definition of the existing-node set not found'
+        if defs and isinstance(defs[0].value, (ast.SetComp, ast.ListComp, ast.GeneratorExp)):
+            gen = defs[0].value.generators[0]
+            it = norm(gen.iter)
+            ok = it == f'{src}.graph.nodes'
+            # an isinstance filter may only name the common base class of all nodes
+            for cond in gen.ifs:
+                if isinstance(cond, ast.Call) and norm(cond.func) == 'isinstance' and norm(cond.args[1]) != 'DSGNode':
+                    ok = False
+            detail = f'{setname} iterates over `{it}`' + (f' filtered by {[norm(c) for c in gen.ifs]}' if gen.ifs else '')
+        ctx.ob(rule, fkey(fn, rule, 'existence-against-all-nodes'), ok, fn.where,
+               'a source node "exists" iff it is among *all* nodes of the source architecture (whatever its class): '
+               'the set it is looked up in iterates over <source>.graph.nodes, at most filtered by the common base '
+               'class DSGNode', detail)
+
+
 def abstract_complete(ctx, rule='A12'):
     base = ctx.prog.cls(f'{SUP}:SupChoiceMapping')
     for c in ctx.prog.subclasses(base):
@@ -212,6 +241,7 @@ def check(ctx):
     resolve_shape(ctx)
     init_shape(ctx)
     option_provenance(ctx)
+    existence_universe(ctx)
     abstract_complete(ctx)
     edges.check_walks(ctx, categories={'derivation'}, anchors=[f'{SUP}:SupSelChoiceOptionMapping.resolve'])
     ctx.floor('A5', 9, 'resolve / initialise guards')
